@@ -30,7 +30,7 @@ namespace nmtools::view
     constexpr auto reduce_logical_or(const left_t& a, const axis_t& axis)
     {
         auto init = false;
-        return reduce(logical_or_t{},a,axis,init);
+        return reduce(logical_or_t{},a,axis,/*dtype=*/None,init);
     } // reduce_logical_or
 }
 
